@@ -409,8 +409,8 @@ impl Check for C02 {
     }
     fn cases(&self, tier: Tier) -> u32 {
         match tier {
-            Tier::Quick => 1500,
-            Tier::Thorough => 40_000,
+            Tier::Quick => 3000,
+            Tier::Thorough => 60_000,
         }
     }
     fn stream_len(&self) -> usize {
